@@ -44,6 +44,9 @@ CONSTANTS
   NDir,        \* number of directions (spatial dimension, or number of components of the variable)
   ReplMaps,    \* sequence of [src |-> terminal position, sub |-> Seq(env)]: replacement maps (C21):
                \* in environment sub[e] the terminal src has the value its image has in e (0: none)
+  ChainMode,   \* "off" | "loose": a new node takes the previous constructed node as an operand unless all
+               \* its operands are initial nodes | "strict": it always does (after the first node).
+               \* Prunes programs whose nodes are combined out of order.
   MiKinds,     \* subset of {"fixed", "name", "slice"}: entries allowed in the multi-index of a[...]
   DumpFinalOnly \* TRUE: only programs whose last operation is in FinalOps are handed to the replay
 
@@ -110,7 +113,10 @@ Ids == 1..Len(store)
 Room == Len(store) < NInit + MaxNodes
 \* a "final" operation (a pass) ends the program: nothing is built on top of its result
 NotFinal(a) == store[a].op \notin FinalOps
-Push(n) == Len(n.sh) <= MaxRank /\ store' = Append(store, n)
+ChainOk(n) == \/ Len(store) = NInit
+              \/ ChainMode = "loose" /\ \A k \in 1..Len(n.args) : n.args[k] <= NInit
+              \/ \E k \in 1..Len(n.args) : n.args[k] = Len(store)
+Push(n) == Len(n.sh) <= MaxRank /\ (ChainMode # "off" => ChainOk(n)) /\ store' = Append(store, n)
 
 -----------------------------------------------------------------------------
 (* Arithmetic *)
@@ -502,7 +508,7 @@ IdxSeqs == UNION {[1..r -> {IdxPool[k] : k \in 1..Len(IdxPool)}] : r \in 1..MaxR
 \* (the last entry repeats), or OpSet when no levels are given
 CurOps == IF Len(OpLevels) = 0 THEN OpSet
           ELSE LET k == Len(store) - NInit + 1 IN OpLevels[IF k <= Len(OpLevels) THEN k ELSE Len(OpLevels)]
-PassOps == {"lower", "expand_indices", "remove_ct", "renumber", "expand_derivatives", "apply_derivatives", "strip_variables",
+PassOps == {"lower", "expand_indices", "remove_ct", "renumber", "expand_derivatives", "apply_derivatives", "strip_variables", "cancelj",
             "remove_complex", "point_eval", "identity"} \cap CurOps
 
 Next ==
